@@ -1085,7 +1085,7 @@ def r65(ctx: Ctx) -> RuleReport:
     key = f'{fi.fq}: markers of the second triple are copied unless they are role alignments'
     found = False
     from ..resolve import local_callees
-    sites = [(f, n) for f in local_callees(ctx, fi, depth=1) if f.module.name == fi.module.name and (f.fq == fi.fq or f.qualname.startswith('_dereif'))
+    sites = [(f, n) for f in local_callees(ctx, fi, depth=1) if f.module.name == fi.module.name and (f.fq == fi.fq or f.qualname.startswith('_'))
              for n in walk_local(f.node)]
     root_fi = fi
     for fi, n in sites:
